@@ -51,7 +51,7 @@ func lookupThroughWorker(r *lib.Run, idx int) {
 	rng := r.RNG("C-lookup", idx)
 	hub := pnode.NewHub()
 	R, err := hub.StartNode(pnode.NodeOpts{Key: pnode.NewKey(rng), Addr: pnode.Addr4(52, 10, byte(idx), 1, 9000), Network: portalwire.History, Versions: []uint8{0, 1},
-		MaxUtp: 10, RespTimeout: 200 * time.Millisecond, VersionsTTL: time.Hour})
+		MaxUtp: 10, RespTimeout: 3 * time.Second, VersionsTTL: time.Hour})
 	if err != nil {
 		r.FloorMiss("part C: start asker: %v", err)
 		return
@@ -92,8 +92,23 @@ func lookupThroughWorker(r *lib.Run, idx int) {
 				continue
 			}
 			host++
-			// all listed records in 8.8.8.0/24: admitted to the asker's table only up to its per-/24 limits
-			x := pnode.SignedNode(k, netip.AddrFrom4([4]byte{8, 8, 8, byte(1 + i*60 + host%60)}), 30303+host, 1)
+			// all listed records in 8.8.8.0/24: admitted to the asker's table only up to its per-/24 limits. The listed
+			// nodes exist and answer at once with an empty list, so that nothing in this scenario waits for a response
+			// timeout: what the monitor books as seen when a peer answers must really have reached the lookup, and an
+			// answer that misses a short timeout on a loaded machine would not have
+			la, err := hub.StartAdversary(pnode.AdvOpts{Key: k, Addr: netip.AddrPortFrom(netip.AddrFrom4([4]byte{8, 8, 8, byte(1 + i*60 + host%60)}), uint16(30303+host)), Versions: []uint8{0, 1}, RespTimeout: time.Second})
+			if err != nil {
+				r.FloorMiss("part C: start listed peer: %v", err)
+				return
+			}
+			defer la.Stop()
+			la.OnTalk(string(portalwire.History), func(_ *enode.Node, _ *net.UDPAddr, msg []byte) []byte {
+				if len(msg) > 0 && msg[0] == portalwire.PING {
+					return pongC(la.Self().Seq(), msg)
+				}
+				return []byte{portalwire.NODES, 1, 5, 0, 0, 0}
+			})
+			x := la.Self()
 			enc, _ := rlp.EncodeToBytes(x.Record())
 			items = append(items, enc)
 			listed = append(listed, x)
